@@ -31,7 +31,15 @@ def lin(node, subst=None):
                 return scale(r, l.get('', 0))
             if set(r) <= {''}:
                 return scale(l, r.get('', 0))
+            # product of non-constant factors: canonical (commutative) key
+            return {'*'.join(sorted(_factors(node))): 1}
     return {t: 1}
+
+
+def _factors(node):
+    if isinstance(node, ast.BinOp) and isinstance(node.op, ast.Mult):
+        return _factors(node.left) + _factors(node.right)
+    return [norm(node)]
 
 
 def add(a, b):
